@@ -249,8 +249,15 @@ fn corrupt(rng: &mut Rng, d: &mut gen::DictSrc) -> String {
         2 => &mut d.chardef,
         _ => &mut d.unk,
     };
+    let (nl, nr) = (d.num_left, d.num_right);
+    let file: &mut Vec<u8> = match which {
+        0 => &mut d.lex,
+        1 => &mut d.matrix,
+        2 => &mut d.chardef,
+        _ => &mut d.unk,
+    };
     let mut bytes = std::mem::take(file);
-    let kind = rng.below(16);
+    let kind = rng.below(18);
     let label;
     match kind {
         0 => {
@@ -352,6 +359,23 @@ fn corrupt(rng: &mut Rng, d: &mut gen::DictSrc) -> String {
             let s = String::from_utf8_lossy(&bytes).replace("SPACE", "SPACEX").replacen("DEFAULT", "DEFAULTX", 1);
             bytes = s.into_bytes();
             label = "undefined-name";
+        }
+        16 | 17 if which == 0 || which == 3 => {
+            // a connection id exactly at a boundary of the connector (numLeft, numRight, or one below the larger)
+            let text = String::from_utf8_lossy(&bytes).to_string();
+            let mut lines: Vec<String> = text.lines().map(|l| l.to_string()).collect();
+            if !lines.is_empty() {
+                let li = rng.below(lines.len());
+                let mut cols: Vec<String> = lines[li].split(',').map(|c| c.to_string()).collect();
+                if cols.len() >= 4 {
+                    let side = 1 + rng.below(2); // 1 = left id column, 2 = right id column
+                    let v = *rng.pick(&[nl, nr, nl.max(nr) - 1, nl.min(nr)]);
+                    cols[side] = v.to_string();
+                    lines[li] = cols.join(",");
+                }
+            }
+            bytes = (lines.join("\n") + "\n").into_bytes();
+            label = "id-at-connector-boundary";
         }
         13 if which == 2 => {
             let extra = *rng.pick(&[
